@@ -411,6 +411,10 @@ def entriesOf (indices values : List Nat) : List (List Nat) :=
 def rankKeys (es : List (List Nat)) : List Int :=
   es.map (fun e => ((es.filter (fun d => bytesLt d e)).length : Int))
 
+/-- `np.asarray(list_of_str)` is a `<U` array: fixed width, NUL padded, and numpy cannot tell padding from content — a
+    string is seen without its trailing NUL characters (`'a\x00'` compares equal to `'a'`; NC09g, cf. NC14a) -/
+def trimNul (e : List Nat) : List Nat := (e.reverse.dropWhile (· == 0)).reverse
+
 /-- `validate_selected_keys` + lookup of the key columns. Since fix NC07b (`np.asarray(raw_data)` in
     `Session.dataset_sort_index`) an indexed string key is sorted as an array of `str`; before it the fancy-indexing of the
     python list raised TypeError. -/
@@ -424,7 +428,7 @@ def keyColumns (sf : Frame) : List String → Except Err (List (List Int))
       | .indexed i vals =>
         match keyColumns sf ks with
         | .error e => .error e
-        | .ok r => .ok (rankKeys (entriesOf i vals) :: r)
+        | .ok r => .ok (rankKeys ((entriesOf i vals).map trimNul) :: r)
       | .plain d =>
         match keyColumns sf ks with
         | .error e => .error e
